@@ -125,6 +125,8 @@ type Task struct {
 	status     Status
 	state      sm.State
 	safeToStop bool
+	// set once a kill of this unowned task has been decided, from then on it cannot be claimed
+	killRequested bool
 
 	properties gera.Map[string, string]
 
@@ -188,7 +190,7 @@ func (t *Task) isLocked() bool {
 func (t *Task) IsClaimable() bool {
 	t.mu.RLock()
 	defer t.mu.RUnlock()
-	return !t.isLocked() && t.status == ACTIVE && t.state == sm.STANDBY
+	return !t.isLocked() && !t.killRequested && t.status == ACTIVE && t.state == sm.STANDBY
 }
 
 // claim locks a claimable task for the given role. Check and lock happen under the same
@@ -196,10 +198,22 @@ func (t *Task) IsClaimable() bool {
 func (t *Task) claim(parent parentRole) bool {
 	t.mu.Lock()
 	defer t.mu.Unlock()
-	if t.isLocked() || t.status != ACTIVE || t.state != sm.STANDBY {
+	if t.isLocked() || t.killRequested || t.status != ACTIVE || t.state != sm.STANDBY {
 		return false
 	}
 	t.parent = parent
+	return true
+}
+
+// claimForKill marks a task nobody owns as about to be killed. Check and mark happen under the
+// same critical section, so an environment cannot claim the task between the two.
+func (t *Task) claimForKill() bool {
+	t.mu.Lock()
+	defer t.mu.Unlock()
+	if t.isLocked() {
+		return false
+	}
+	t.killRequested = true
 	return true
 }
 
